@@ -20,8 +20,29 @@ from abc import ABC, abstractmethod
 from uberjob.progress._progress_observer import ProgressObserver
 
 
+class _SortKey:
+    """Orders arbitrary scope values: by type name, then by value, falling back to repr when the values are unorderable."""
+
+    __slots__ = ("type_name", "value")
+
+    def __init__(self, value):
+        self.type_name = str(type(value))
+        self.value = value
+
+    def __eq__(self, other):
+        return self.type_name == other.type_name and self.value == other.value
+
+    def __lt__(self, other):
+        if self.type_name != other.type_name:
+            return self.type_name < other.type_name
+        try:
+            return bool(self.value < other.value)
+        except TypeError:
+            return repr(self.value) < repr(other.value)
+
+
 def _universal_sort_key(*args):
-    return tuple((str(type(x)), x) for x in args)
+    return tuple(_SortKey(x) for x in args)
 
 
 def sorted_scope_items(scope_dict):
